@@ -87,6 +87,21 @@ ARITH = {'add': lambda a, b: a + b, 'sub': lambda a, b: a - b, 'mul': lambda a, 
          'rep2': lambda a, b: a * 2}
 
 
+def sibling_constraints(dom, c, x):
+    """constraint trees built from the same operands as c but denoting something else, plus c widened by {x}"""
+    out = [('the union of the target constraint and {this value}', {'op': 'or', 'a': c, 'b': {'op': 'single', 'vals': [x]}})]
+    if dom == 'int':
+        if c['op'] == 'single' and len(c['vals']) >= 2:
+            out.append(('the range between the same numbers', {'op': 'range', 'lo': min(c['vals']), 'hi': max(c['vals'])}))
+        if c['op'] == 'range':
+            out.append(('the two end points as single values', {'op': 'single', 'vals': [c['lo'], c['hi']]}))
+    if c['op'] == 'not':
+        out.append(('the excluded constraint itself', c['a']))
+    if c['op'] == 'and':
+        out.append(('the union of the same operands', {'op': 'or', 'a': c['a'], 'b': c['b']}))
+    return out
+
+
 def replay(s):
     """one model state -> list of (clause, detail) divergences"""
     out = []
@@ -104,6 +119,19 @@ def replay(s):
         st, obj = outcome(lambda: T.subtype(value=v))
         if (st == 'ok') != ok or st == 'crash':
             out.append(('Construction', 'T.subtype(value=%r) -> %s' % (v, st)))
+        # construction from a VALUE OBJECT of a sibling type whose constraints look alike without being narrower: a value
+        # the sibling admits must still pass the target's own constraints
+        for what, cj in sibling_constraints(dom, c, x):
+            try:
+                S = base(dom).subtype(subtypeSpec=build(cj))
+                src = S.clone(v)
+            except Exception:
+                continue                                  # the sibling does not admit v: nothing to pass on
+            for how, fn in (('clone', lambda: T.clone(src)), ('subtype', lambda: T.subtype(value=src))):
+                st, obj = outcome(fn)
+                if (st == 'ok') != ok or st == 'crash':
+                    out.append(('Construction', 'T.%s(<value %r of a sibling type with %s>) -> %s, model says %s' % (
+                        how, v, what, st, 'admitted' if ok else 'rejected')))
         wire = der_enc.encode(base(dom).clone(v))
         st, r = outcome(lambda: der_dec.decode(wire, asn1Spec=T))
         if (st == 'ok') != ok or st == 'crash':
